@@ -9,6 +9,7 @@ import (
 	"io"
 	"os"
 	"path/filepath"
+	"sort"
 	"strconv"
 	"strings"
 
@@ -33,6 +34,8 @@ type Document struct {
 	nextImageID int
 	// 打开的文档中 styles.xml 关系原有的ID（为空表示使用 rId1）
 	stylesRelationshipID string
+	// styles.xml 是否由本库根据样式管理器生成（而不是来自打开的文档/模板）
+	stylesGenerated bool
 }
 
 // Body 表示文档主体
@@ -3021,8 +3024,9 @@ func (d *Document) serializeStyles() error {
 
 	// 如果在克隆文档时已经保留了完整的 styles.xml（含 docDefaults 等信息），
 	// 这里直接跳过重新生成，避免丢失模板原有的默认段落/字符设置。
-	if existing, ok := d.parts["word/styles.xml"]; ok && len(existing) > 0 {
-		Debugf("检测到已有 styles.xml，跳过样式重建以保留模板默认样式")
+	if existing, ok := d.parts["word/styles.xml"]; ok && len(existing) > 0 && !d.stylesGenerated {
+		Debugf("检测到已有 styles.xml，保留原文，只补充缺少的样式定义")
+		d.parts["word/styles.xml"] = d.appendMissingStyles(existing)
 		return nil
 	}
 
@@ -3067,9 +3071,109 @@ func (d *Document) serializeStyles() error {
 
 	// 添加XML声明
 	d.parts["word/styles.xml"] = append([]byte(xml.Header), data...)
+	// 由样式管理器生成的 styles.xml 在每次保存时重新生成，
+	// 这样之后通过样式API新增、修改或删除的样式才会出现在文件中
+	d.stylesGenerated = true
 
 	Debugf("样式序列化完成")
 	return nil
+}
+
+// appendMissingStyles 用于来自已打开文档或模板的 styles.xml：原文保持不变，
+// 只在末尾补充其中没有、但文档需要的样式定义——通过样式API创建的自定义样式，
+// 以及主文档引用到的样式管理器中的样式（例如在打开的文档上调用
+// AddHeadingParagraph 使用的 HeadingN）。没有需要补充的样式时原样返回。
+func (d *Document) appendMissingStyles(existing []byte) []byte {
+	if d.styleManager == nil {
+		return existing
+	}
+
+	// 已定义的样式ID
+	defined := make(map[string]bool)
+	decoder := xml.NewDecoder(bytes.NewReader(existing))
+	for {
+		token, err := decoder.Token()
+		if err != nil {
+			if err != io.EOF {
+				return existing // 无法解析，保持原样
+			}
+			break
+		}
+		if start, ok := token.(xml.StartElement); ok && start.Name.Local == "style" {
+			defined[getAttributeValue(start.Attr, "styleId")] = true
+		}
+	}
+
+	// 需要的样式：自定义样式 + 主文档引用的样式
+	needed := make(map[string]bool)
+	for _, st := range d.styleManager.GetAllStyles() {
+		if st != nil && st.CustomStyle {
+			needed[st.StyleID] = true
+		}
+	}
+	if docData, ok := d.parts["word/document.xml"]; ok {
+		decoder = xml.NewDecoder(bytes.NewReader(docData))
+		for {
+			token, err := decoder.Token()
+			if err != nil {
+				break
+			}
+			if start, ok := token.(xml.StartElement); ok {
+				switch start.Name.Local {
+				case "pStyle", "rStyle", "tblStyle":
+					needed[getAttributeValue(start.Attr, "val")] = true
+				}
+			}
+		}
+	}
+
+	var additions []byte
+	added := make(map[string]bool)
+	var addStyle func(styleID string)
+	addStyle = func(styleID string) {
+		if styleID == "" || defined[styleID] || added[styleID] {
+			return
+		}
+		st := d.styleManager.GetStyle(styleID)
+		if st == nil {
+			return
+		}
+		added[styleID] = true
+		data, err := xml.MarshalIndent(st, "  ", "  ")
+		if err != nil {
+			return
+		}
+		// 原文件的根元素不一定使用 w 前缀，因此在每个补充的样式上声明命名空间
+		data = bytes.Replace(data, []byte("<w:style "), []byte(`<w:style xmlns:w="http://schemas.openxmlformats.org/wordprocessingml/2006/main" `), 1)
+		additions = append(additions, '\n')
+		additions = append(additions, data...)
+		if st.BasedOn != nil {
+			addStyle(st.BasedOn.Val) // 被依赖的样式也要存在
+		}
+	}
+	ids := make([]string, 0, len(needed))
+	for styleID := range needed {
+		ids = append(ids, styleID)
+	}
+	sort.Strings(ids)
+	for _, styleID := range ids {
+		addStyle(styleID)
+	}
+	if len(additions) == 0 {
+		return existing
+	}
+
+	// 插入到根元素的结束标签之前
+	end := bytes.LastIndex(existing, []byte("</"))
+	if end < 0 {
+		return existing
+	}
+	result := make([]byte, 0, len(existing)+len(additions)+1)
+	result = append(result, existing[:end]...)
+	result = append(result, additions...)
+	result = append(result, '\n')
+	result = append(result, existing[end:]...)
+	return result
 }
 
 // parseContentTypes 解析内容类型文件
